@@ -19,6 +19,9 @@ TRUSTED = [
 ]
 
 
+_OPAQUE_BUILTINS = frozenset(("map", "filter", "next", "iter", "reversed", "vars", "globals", "locals", "exec", "eval"))
+
+
 class Finding:
     def __init__(self, pid, rule, site, construct, message, file=None, line=None):
         self.pid, self.rule, self.site, self.construct = pid, rule, site, construct
@@ -144,6 +147,50 @@ class Ctx:
         site) were evaluated on a subject it could not locate: a failure among them is 'not decided' (exit 2), not a
         violation.  Findings listed as known are left alone."""
         known = load_known()
+        # functions that use constructs the evaluator does not model (iterator / functional plumbing, generators, reflection,
+        # calls through computed callables): what it computed for them is not what they do, so a failed obligation there is
+        # "not decided".  None of these constructs occurs on the pinned tree.
+        from . import evalr
+        opaque = {}
+        for tr in evalr.ALL_TRACES:
+            for e in tr.events:
+                if e.kind != "call":
+                    continue
+                cal = e.d.get("callee")
+                why = None
+                if cal and cal[0] == "lib" and isinstance(cal[1], str) and (cal[1].split(".")[0] in ("itertools", "functools", "operator") or
+                                                                          cal[1] in _OPAQUE_BUILTINS):
+                    why = cal[1]
+                elif cal and cal[0] == "dynamic":
+                    fa = cal[1].single_atom() if hasattr(cal[1], "single_atom") else None
+                    k = fa[0] if fa is not None else "expr"
+                    if k == "sub" and (fa[1].single_atom() or ("",))[0] in ("attr", "param", "loopvar", "mutated", "setitem"):
+                        k = "attr"   # an entry of a table of user callables (column selectors)
+                    if k == "call" and isinstance(fa[1], str) and fa[1].startswith("joblib."):
+                        k = "attr"   # Parallel(...)(jobs): the library runs the jobs it is given (they are analysed where they are defined)
+                    if k not in ("attr", "param", "getattr", "iter", "loopvar"):
+                        why = "call through a computed callable"
+                if why:
+                    for f in e.stack:
+                        opaque.setdefault(f.qualname, why)
+        # a finding's site names the class analysed; the construct may sit in the method it inherits
+        for f in self.findings:
+            if f.site not in opaque and "." in f.site:
+                cn, mn = f.site.split(".", 1)
+                try:
+                    ci_ = self.prog.cls(cn)
+                    fi_ = self.prog.lookup(ci_, mn.split(".")[0]) if ci_ is not None else None
+                    if fi_ is None and ci_ is not None:
+                        pr_ = self.prog.find_property(ci_, mn.split(".")[0])
+                        fi_ = pr_[0] if pr_ else None
+                except Exception:
+                    fi_ = None
+                if fi_ is not None and fi_.qualname in opaque:
+                    opaque[f.site] = opaque[fi_.qualname]
+        for f in self.findings:
+            if f.site in opaque and f.site not in self.anchor_failed_sites and (f.rule, f.site, f.construct) not in self._firm:
+                self.anchor_failed_sites.add(f.site)
+                self.anchor_errors.append("%s uses %s, which the evaluator does not model" % (f.site, opaque[f.site]))
         # a formula obligation whose computed value goes through a callable the evaluator could not resolve (shown as <dynamic>(...))
         # was not evaluated on the formula: the site counts as unrecognised
         for f in self.findings:
